@@ -42,7 +42,9 @@ type C14Case struct {
 	Gen      string     `json:"generator,omitempty"`
 	Zoom     float32    `json:"zoom,omitempty"`
 	PageH    int        `json:"page_h,omitempty"`
-	Doc      gen.Doc    `json:"doc,omitempty"`
+	// Bleed: declarations added to @page (bleed / marks): the media box grows around the page box
+	Bleed string  `json:"bleed,omitempty"`
+	Doc   gen.Doc `json:"doc,omitempty"`
 }
 
 func c14Gen(t *rapid.T, tier Tier) interface{} {
@@ -102,6 +104,7 @@ func c14Gen(t *rapid.T, tier Tier) interface{} {
 	c.Gen = rapid.SampledFrom([]string{"", "gen 1.0"}).Draw(t, "gen")
 	c.Zoom = rapid.SampledFrom([]float32{1, 1, 0.1, 2.5}).Draw(t, "zoom")
 	c.PageH = rapid.SampledFrom([]int{60, 100, 200, 1000}).Draw(t, "pageh")
+	c.Bleed = rapid.SampledFrom([]string{"", "", "", "bleed:20px", "marks:crop", "bleed:8px;marks:cross crop"}).Draw(t, "bleed")
 	return c
 }
 
@@ -123,8 +126,8 @@ func c14HTML(c *C14Case) string {
 	if c.Gen != "" {
 		b.WriteString(`<meta name="generator" content="` + c.Gen + `">`)
 	}
-	fmt.Fprintf(&b, `<style>@page{size:300px %dpx;margin:10px}body{font:10px/1.2 Ahem;margin:0}h1,h2,h3,h4,h5,h6,p{margin:2px 0;font-size:10px}</style></head><body>`, c.PageH)
-	for _, bl := range c.Blocks {
+	fmt.Fprintf(&b, `<style>@page{size:300px %dpx;margin:10px;`+c.Bleed+`}body{font:10px/1.2 Ahem;margin:0}h1,h2,h3,h4,h5,h6,p{margin:2px 0;font-size:10px}</style></head><body>`, c.PageH)
+	for bi, bl := range c.Blocks {
 		switch bl.Kind {
 		case "break":
 			b.WriteString(`<div style="break-before:page"></div>`)
@@ -150,7 +153,7 @@ func c14HTML(c *C14Case) string {
 		}
 		fmt.Fprintf(&b, `<%s%s style="%s">%s`, tag, id, st, bl.Text)
 		if bl.Kind == "p" && bl.Href != "" || bl.Kind == "p" && bl.Href == "" && strings.Contains(bl.Text, "para") && false {
-			fmt.Fprintf(&b, ` <a href="%s">link</a>`, bl.Href)
+			fmt.Fprintf(&b, ` <a href="%s" style="background:rgb(%d,20,0)">link</a>`, bl.Href, bi+1)
 		}
 		fmt.Fprintf(&b, `</%s>`, tag)
 	}
@@ -397,6 +400,11 @@ func c14Check(ci interface{}) Verdict {
 			}
 		}
 	}
+	// ---- a link lies where its box is painted: the rectangle handed to the backend is the bounding box of
+	// the background painted for the <a> (same page canvas, whatever the zoom, the transforms and the bleed)
+	if v := c14LinkGeometry(c, r, doc, labels); v != nil {
+		return mk(*v)
+	}
 	// ---- bookmarks: reference of the level-stack algorithm (CSS GCPM section 6)
 	var want []c14Bm
 	for _, bl := range c.Blocks {
@@ -508,4 +516,111 @@ func init() {
 		ImportantLabels: []string{"kind:general", "kind:links", "pages>1", "duplicate-ids", "link-to-missing", "link-to-existing", "external-link", "bookmarks>1", "zoom:0.1", "zoom:2.5"},
 		Assumptions:     []string{"crashes while rendering belong to C01: such cases are excluded here and counted"},
 	})
+}
+
+// c14LinkGeometry compares every link rectangle with the device-space bounding boxes of the backgrounds
+// painted on the page canvases for the links of the same target.
+func c14LinkGeometry(c *C14Case, r *wr.Rendered, doc string, labels map[string]bool) *Verdict {
+	byHref := map[string][]int{} // target -> colour ids of its <a> elements
+	for bi, bl := range c.Blocks {
+		if bl.Kind == "p" && bl.Href != "" {
+			key := bl.Href
+			if strings.HasPrefix(key, "#") {
+				key = key[1:]
+			}
+			byHref[key] = append(byHref[key], bi+1)
+		}
+	}
+	pageCanvas := map[int]bool{}
+	type state struct{ fill [3]float32 }
+	stacks := map[int][]state{}
+	painted := map[int][][4]float64{} // colour id -> device boxes (xmin ymin xmax ymax)
+	var pending [][4]float64
+	for _, e := range r.Rec.Events {
+		st := stacks[e.Canvas]
+		if len(st) == 0 {
+			st = []state{{}}
+		}
+		top := &st[len(st)-1]
+		switch e.Op {
+		case "AddPage":
+			pageCanvas[e.Ref] = true
+		case "Push":
+			st = append(st, *top)
+		case "Pop":
+			if len(st) > 1 {
+				st = st[:len(st)-1]
+			}
+		case "SetColorRgba":
+			if e.F[4] == 0 {
+				top.fill = [3]float32{e.F[0], e.F[1], e.F[2]}
+			}
+		case "Rectangle":
+			if pageCanvas[e.Canvas] {
+				m := e.CTM
+				x, y, w, h := float64(e.F[0]), float64(e.F[1]), float64(e.F[2]), float64(e.F[3])
+				bb := [4]float64{math.Inf(1), math.Inf(1), math.Inf(-1), math.Inf(-1)}
+				for _, p := range [][2]float64{{x, y}, {x + w, y}, {x, y + h}, {x + w, y + h}} {
+					px := float64(m[0])*p[0] + float64(m[2])*p[1] + float64(m[4])
+					py := float64(m[1])*p[0] + float64(m[3])*p[1] + float64(m[5])
+					bb[0], bb[1], bb[2], bb[3] = math.Min(bb[0], px), math.Min(bb[1], py), math.Max(bb[2], px), math.Max(bb[3], py)
+				}
+				pending = append(pending, bb)
+			}
+		case "Paint":
+			id, g, bl := int(top.fill[0]*255+0.5), int(top.fill[1]*255+0.5), int(top.fill[2]*255+0.5)
+			if g == 20 && bl == 0 && id >= 1 {
+				painted[id] = append(painted[id], pending...)
+			}
+			pending = nil
+		case "Clip", "MoveTo":
+			pending = nil
+		}
+		stacks[e.Canvas] = st
+	}
+	// the rectangle of an inline box is as high as its line (12 px here), its background as high as its font
+	// (10 px): one CSS pixel of slack on each side, 1.5 with rounding, in device units
+	zoom := float64(c.Zoom)
+	if zoom == 0 {
+		zoom = 1
+	}
+	tol := 1.5*0.75*zoom + 0.02
+	for _, e := range r.Rec.Events {
+		if e.Op != "AddInternalLink" && e.Op != "AddExternalLink" {
+			continue
+		}
+		var boxes [][4]float64
+		complete := true
+		for _, id := range byHref[e.S] {
+			if len(painted[id]) == 0 {
+				complete = false // painted inside a group (opacity) or not at all: which link is which is not known
+			}
+			boxes = append(boxes, painted[id]...)
+		}
+		if len(boxes) == 0 || !complete {
+			continue
+		}
+		l := [4]float64{math.Min(float64(e.F[0]), float64(e.F[2])), math.Min(float64(e.F[1]), float64(e.F[3])), math.Max(float64(e.F[0]), float64(e.F[2])), math.Max(float64(e.F[1]), float64(e.F[3]))}
+		found := false
+		for _, b := range boxes {
+			ok := true
+			for k := 0; k < 4; k++ {
+				if math.Abs(b[k]-l[k]) > tol {
+					ok = false
+				}
+			}
+			if ok {
+				found = true
+			}
+		}
+		labels["link-geometry"] = true
+		if c.Bleed != "" {
+			labels["link-geometry-with-bleed"] = true
+		}
+		if !found {
+			v := Viol("links:rectangle-away-from-box", "the rectangle of the link to %q is %v, the background of its <a> is painted at %v (device space of the page)\n%s", e.S, l, boxes, doc)
+			return &v
+		}
+	}
+	return nil
 }
